@@ -20,20 +20,21 @@ func VerifH_C27_NoDeadlock() {
 	vfFixedClock(true)
 	vfTimeHorizon(10 * 60 * 1000) // channel token renewal (45 min) is outside the scenario
 	vfPreempt(false)
-	serverSubs, nextSub, publishes := 0, uint32(5), 0
+	nextSub, publishes := uint32(5), 0
+	live := map[uint32]bool{} // the subscriptions the server holds
 	published := make(chan struct{}, 64)
 	c := vfConnectedClient(func(req ua.Request) ua.Response {
 		switch r := req.(type) {
 		case *ua.CreateSubscriptionRequest:
-			serverSubs++
 			id := nextSub
 			nextSub++
+			live[id] = true
 			return &ua.CreateSubscriptionResponse{ResponseHeader: vfRH(), SubscriptionID: id, RevisedPublishingInterval: 100, RevisedLifetimeCount: 10, RevisedMaxKeepAliveCount: 3}
 		case *ua.DeleteSubscriptionsRequest:
 			res := &ua.DeleteSubscriptionsResponse{ResponseHeader: vfRH()}
-			for range r.SubscriptionIDs {
-				if serverSubs > 0 {
-					serverSubs--
+			for _, id := range r.SubscriptionIDs {
+				if live[id] {
+					delete(live, id)
 					res.Results = append(res.Results, ua.StatusOK)
 				} else {
 					res.Results = append(res.Results, ua.StatusBadSubscriptionIDInvalid)
@@ -46,14 +47,18 @@ func VerifH_C27_NoDeadlock() {
 			case published <- struct{}{}:
 			default:
 			}
-			if serverSubs == 0 {
+			if len(live) == 0 {
 				h := vfRH()
 				h.ServiceResult = ua.StatusBadNoSubscription
 				return &ua.ServiceFault{ResponseHeader: h}
 			}
 			if h := r.RequestHeader.TimeoutHint; h == 0 || h > 60000 {
 				// the client would wait (practically) for ever: the server's keep-alive comes first
-				return &ua.PublishResponse{ResponseHeader: vfRH(), SubscriptionID: nextSub - 1, NotificationMessage: &ua.NotificationMessage{SequenceNumber: 1}}
+				any := uint32(0)
+				for id := range live {
+					any = id
+				}
+				return &ua.PublishResponse{ResponseHeader: vfRH(), SubscriptionID: any, NotificationMessage: &ua.NotificationMessage{SequenceNumber: 1}}
 			}
 			return nil // stays outstanding until the client gives up on it
 		}
@@ -69,19 +74,19 @@ func VerifH_C27_NoDeadlock() {
 		return sub
 	}
 	vfPreempt(true)
-	switch vfConcrete(vfInt("script", 0, vfParam("c27.scripts", 4)-1)) {
+	switch vfConcrete(vfInt("script", 0, vfParam("c27.scripts", 5)-1)) {
 	case 0: // a subscription is cancelled twice
 		s := subscribe()
 		s.Cancel(ctx)
 		s.Cancel(ctx)
-	case 1: // subscribe / cancel, twice in a row
+	case 2: // subscribe / cancel, twice in a row
 		subscribe().Cancel(ctx)
 		subscribe().Cancel(ctx)
-	case 2: // forgotten (not deleted on the server), then cancelled
+	case 3: // forgotten (not deleted on the server), then cancelled
 		s := subscribe()
 		c.ForgetSubscription(ctx, s.SubscriptionID)
 		s.Cancel(ctx)
-	case 3: // two application goroutines
+	case 4: // two application goroutines
 		done := make(chan bool, 2)
 		for i := 0; i < 2; i++ {
 			go func() {
@@ -91,12 +96,32 @@ func VerifH_C27_NoDeadlock() {
 		}
 		<-done
 		<-done
+	case 1: // two subscriptions; one is cancelled twice, the other one stays
+		a := subscribe()
+		subscribe()
+		a.Cancel(ctx)
+		a.Cancel(ctx)
 	}
 	vfReach("returned")
-	// a fresh subscription must get the loop publishing again
-	for len(published) > 0 {
-		<-published
+	if vfParam("c27.quietTail", 0) == 1 {
+		vfPreempt(false) // deeper tiers: forced context switches only while the API calls run
 	}
+	drain := func() {
+		for len(published) > 0 {
+			<-published
+		}
+	}
+	// a subscription that is still registered keeps the loop publishing
+	c.subMux.RLock()
+	remaining := len(c.subs)
+	c.subMux.RUnlock()
+	if remaining > 0 {
+		drain()
+		<-published
+		vfReach("survivor")
+	}
+	// a fresh subscription must get the loop publishing again
+	drain()
 	subscribe()
 	<-published
 	vfReach("live")
